@@ -623,7 +623,13 @@ def first_code_line(text):
 
 def weave(fn, sc, log, lost):
     """fn: dict from Crate.find_fn; sc: Sidecar.  Returns list of text lines (Verus)."""
-    lines = canon_lines(strip_attrs(fn['body'], log))
+    btoks = strip_attrs(fn['body'], log)
+    # D2: `#[async_recursion]` wraps the body in `Box::pin(async move { BODY })`
+    if len(btoks) > 9 and [t.text for t in btoks[:7]] == ['Box', '::', 'pin', '(', 'async', 'move', '{'] \
+            and btoks[-1].text == ')' and btoks[-2].text == '}' and match_close(btoks, 6) == len(btoks) - 2:
+        btoks = btoks[7:-2]
+        log.hit('D2')
+    lines = canon_lines(btoks)
     nodes = build_tree(lines)
     rules = list(GLOBAL_RULES)
     apply_text_rules(nodes, rules, log)
